@@ -141,6 +141,11 @@ pub struct Pipe {
     pub chunk_override: Option<Chunk>,
     /// (event sequence number, total bytes delivered so far) for every delivery.
     pub deliveries: Vec<(u64, usize)>,
+    /// Bounded-capacity mode (C19 tier A): at most `cap` written-but-undrained bytes; a raw peer
+    /// drains them when the environment says so. Only meaningful together with `sink`.
+    pub cap: Option<usize>,
+    pub undrained: usize,
+    pub writer_waker: Option<Waker>,
 }
 
 #[derive(Debug)]
@@ -246,6 +251,7 @@ enum EnvAct {
     Connect(usize),
     Item(usize),
     End(usize),
+    Drain(usize),
 }
 
 impl W {
@@ -364,6 +370,9 @@ impl W {
     fn env_acts(&self, idle: bool, out: &mut Vec<EnvAct>) {
         out.clear();
         for (i, p) in self.pipes.iter().enumerate() {
+            if p.sink && p.cap.is_some() && p.undrained > 0 {
+                out.push(EnvAct::Drain(i));
+            }
             if p.sink || p.reader_gone || p.eof || p.broken {
                 continue;
             }
@@ -446,6 +455,21 @@ impl W {
                 self.streams[s].available.push_back(it);
                 self.ev("env.item", s as u64, it.0);
                 if let Some(w) = self.streams[s].waker.take() {
+                    w.wake();
+                }
+            }
+            EnvAct::Drain(p) => {
+                let have = self.pipes[p].undrained;
+                let n = match self.tape.draw(4) {
+                    0 => have,
+                    1 => 1,
+                    2 => 1 + self.tape.draw(have.min(16)),
+                    _ => 1 + self.tape.draw(have),
+                };
+                self.pipes[p].undrained -= n;
+                self.bytes_moved += n as u64;
+                self.ev("env.drain", p as u64, n as u64);
+                if let Some(w) = self.pipes[p].writer_waker.take() {
                     w.wake();
                 }
             }
@@ -883,6 +907,95 @@ impl Drop for WriteFut<'_> {
 impl WriteHalf for SimWriteHalf {
     async fn write(&mut self, buf: &[u8]) -> zlink_core::Result<()> {
         WriteFut { half: self, buf, stall: None, index: None, done: false }.await
+    }
+}
+
+// ---------------------------------------------------------------------------------------------
+// Bounded pipe with partial writes (C19 tier A). The write half runs the same write-all loop as the
+// transport crates (`while pos < len { pos += write_some(&buf[pos..]).await? }`) over a
+// primitive that accepts at most the free capacity, so write progress lives inside the future.
+
+pub struct PSocket {
+    pub world: World,
+    pub rd: usize,
+    pub wr: usize,
+}
+
+impl fmt::Debug for PSocket {
+    fn fmt(&self, f: &mut fmt::Formatter<'_>) -> fmt::Result {
+        write!(f, "PSocket(rd={}, wr={})", self.rd, self.wr)
+    }
+}
+
+impl Socket for PSocket {
+    type ReadHalf = SimReadHalf;
+    type WriteHalf = PWriteHalf;
+    fn split(self) -> (SimReadHalf, PWriteHalf) {
+        (
+            SimReadHalf { world: self.world.clone(), pipe: self.rd },
+            PWriteHalf { world: self.world, pipe: self.wr },
+        )
+    }
+}
+
+pub struct PWriteHalf {
+    pub world: World,
+    pub pipe: usize,
+}
+
+impl fmt::Debug for PWriteHalf {
+    fn fmt(&self, f: &mut fmt::Formatter<'_>) -> fmt::Result {
+        write!(f, "PWriteHalf({})", self.pipe)
+    }
+}
+
+struct WriteSome<'a> {
+    world: &'a World,
+    pipe: usize,
+    buf: &'a [u8],
+}
+
+impl Future for WriteSome<'_> {
+    type Output = zlink_core::Result<usize>;
+    fn poll(self: Pin<&mut Self>, cx: &mut Context<'_>) -> Poll<Self::Output> {
+        let mut w = self.world.borrow_mut();
+        let p = self.pipe;
+        w.tick();
+        w.seam_env();
+        let cap = w.pipes[p].cap.unwrap_or(usize::MAX);
+        let free = cap.saturating_sub(w.pipes[p].undrained);
+        if free == 0 {
+            w.pipes[p].writer_waker = Some(cx.waker().clone());
+            w.stat("frag.write_blocked_pipe_full");
+            w.nontrivial = true;
+            w.ev("pwrite.pending", p as u64, 0);
+            return Poll::Pending;
+        }
+        let mut n = free.min(self.buf.len());
+        if w.cfg.short_read && n > 1 && w.tape.chance(1, 4) {
+            n = 1 + w.tape.draw(n - 1);
+            w.stat("buggify.short_write");
+        }
+        if n < self.buf.len() {
+            w.stat("frag.partial_write");
+            w.nontrivial = true;
+        }
+        let pipe = &mut w.pipes[p];
+        pipe.log.extend_from_slice(&self.buf[..n]);
+        pipe.undrained += n;
+        w.ev("pwrite", p as u64, n as u64);
+        Poll::Ready(Ok(n))
+    }
+}
+
+impl WriteHalf for PWriteHalf {
+    async fn write(&mut self, buf: &[u8]) -> zlink_core::Result<()> {
+        let mut pos = 0;
+        while pos < buf.len() {
+            let n = WriteSome { world: &self.world, pipe: self.pipe, buf: &buf[pos..] }.await?;
+            pos += n;
+        }
+        Ok(())
     }
 }
 
